@@ -91,7 +91,10 @@ func (r *CRDV2) VerifPendingDeleted() []string {
 	return out
 }
 
-// NewVerifNodeReconcile builds the daemon-side Node CR reconciler over an injected client.
+// NewVerifNodeReconcile builds the daemon-side Node CR reconciler over an injected client. The ERDMA device
+// plugin (which needs the kubelet socket and exits the process without it) is marked as already started.
 func NewVerifNodeReconcile(c client.Client, rec record.EventRecorder, nodeName string) reconcile.Reconciler {
-	return &nodeReconcile{client: c, record: rec, nodeName: nodeName}
+	r := &nodeReconcile{client: c, record: rec, nodeName: nodeName}
+	r.once.Do(func() {})
+	return r
 }
